@@ -64,6 +64,10 @@ def npZeros (n : Int) : Except Err (List Int) :=
 def npZerosB (n : Int) : Except Err (List Bool) :=
   if n < 0 then .error (.valueError "negative dimensions are not allowed") else .ok (List.replicate n.toNat false)
 
+/-- `np.full(n, v, dtype)` -/
+def npFull (n v : Int) : Except Err (List Int) :=
+  if n < 0 then .error (.valueError "negative dimensions are not allowed") else .ok (List.replicate n.toNat v)
+
 /-- a slice bound as Python normalises it against `len`: `None` ↦ default, negative ↦ `+ len` clamped at 0, large ↦ `len` -/
 def normBound (len : Nat) (b : Option Int) (dflt : Nat) : Nat :=
   match b with
